@@ -4,7 +4,9 @@
 shape matchers of translator/c13.py read the same table from every member of a class of equivalent spellings:
 
   (a) calls to private helpers (`self._name(...)` defined in the class / its listed bases, `_name(...)` defined at module
-      level) are inlined: as a statement, as the value of an assignment / return, or -- single-`return <expr>` helpers --
+      level or imported by name from another module of the same code base -- then read in that module's vocabulary:
+      its constants, its private helpers, and only if every imported name it uses is imported identically here; positional,
+      keyword and keyword-only parameters, defaults) are inlined: as a statement, as the value of an assignment / return, or -- single-`return <expr>` helpers --
       inside an expression;
   (b) local aliases `x = <cheap pure expression>` (names, attribute chains, constants, tuples, isinstance / is / == / in
       tests of those) are substituted into their uses along every path; an alias that is USED after a statement that
@@ -15,12 +17,14 @@ shape matchers of translator/c13.py read the same table from every member of a c
       `not in` tests are turned positive with swapped branches; `else` after a terminating branch disappears;
   (d) `a is b is None` == `a is None and b is None`; `a <= x <= b` == `a <= x and x <= b` (x a cheap pure expression);
       `not (x is not y)` == `x is y`; De Morgan on tests whose operands are ALL negated (short-circuit order is the same);
-  (e) `match` on literals / class patterns == if/elif on `==` / isinstance;
+  (e) `match` on literals / class patterns == if/elif on `==` / isinstance; a capture (`case x:`, `case Cls() as x:`) is a
+      local alias of the subject, treated like any other alias (b);
   (g) names bound once at module level to a literal (constant / tuple of constants) are replaced by the literal;
   (h) docstrings, annotations, `pass`, function-level imports, logging calls, the arguments of `raise X(...)` and of
       `warnings.warn(...)` are dropped; locals assigned just before a `raise` (message building) are dropped; remaining
       locals are renamed _v1, _v2, ... in order of appearance;
-  (i) `x = a if c else b` / `return a if c else b` == if/else.
+  (i) `x = a if c else b` / `return a if c else b` == if/else; `if (x := E) ...:` == `x = E; if x ...:` when the walrus is
+      the first thing the test evaluates.
 
 Loops, try, with are kept as opaque statements (a `return` inside one fails closed).  Nothing here looks at message text.
 """
@@ -465,6 +469,8 @@ def is_message_only(fn: ast.FunctionDef, module: ast.Module | None = None, scope
             return True
         if isinstance(v, ast.JoinedStr):
             return not expr_writes(v)
+        if isinstance(v, ast.BinOp) and isinstance(v.op, (ast.Add, ast.Mod)):
+            return text(v.left) and text(v.right)           # concatenation / %-formatting of text
         if isinstance(v, ast.Call) and ctx is not None and ctx.depth < MAX_DEPTH:
             h = find_helper(v, ctx)
             if h is None or any(isinstance(x, ast.Starred) for x in v.args) or any(k.arg is None for k in v.keywords):
@@ -671,6 +677,30 @@ def match_test(subject, pat):
     fail(pat, "match pattern not accepted")
 
 
+def hoist_walrus(test):
+    """`if (x := E) is None:` == `x = E; if x is None:` -- only for the operand that is evaluated FIRST and unconditionally
+    (left-most through `not`, the first operand of `and` / `or`, the left side of a comparison, the first argument of
+    isinstance / type / len).  -> (assignment | None, test)"""
+    def go(n):
+        if isinstance(n, ast.NamedExpr) and isinstance(n.target, ast.Name):
+            return (ast.Assign(targets=[ast.Name(id=n.target.id, ctx=ast.Store())], value=n.value),
+                    ast.Name(id=n.target.id, ctx=ast.Load()))
+        if isinstance(n, ast.UnaryOp) and isinstance(n.op, ast.Not):
+            a, o = go(n.operand)
+            return a, (n if a is None else ast.UnaryOp(op=n.op, operand=o))
+        if isinstance(n, ast.BoolOp):
+            a, o = go(n.values[0])
+            return a, (n if a is None else ast.BoolOp(op=n.op, values=[o] + n.values[1:]))
+        if isinstance(n, ast.Compare):
+            a, o = go(n.left)
+            return a, (n if a is None else ast.Compare(left=o, ops=n.ops, comparators=n.comparators))
+        if isinstance(n, ast.Call) and dotted(n.func) in ("isinstance", "type", "len") and n.args and not n.keywords:
+            a, o = go(n.args[0])
+            return a, (n if a is None else ast.Call(func=n.func, args=[o] + n.args[1:], keywords=[]))
+        return None, n
+    return go(test)
+
+
 def build(stmts: list, k: Blk, ctx: Ctx) -> Blk:
     """stmts followed by the continuation k, as a decision tree"""
     if not stmts:
@@ -693,6 +723,9 @@ def build(stmts: list, k: Blk, ctx: Ctx) -> Blk:
     if isinstance(st, ast.Raise):
         return Blk([], ("raise", st))
     if isinstance(st, ast.If):
+        pre, test = hoist_walrus(st.test)
+        if pre is not None:
+            return build([pre, ast.If(test=test, body=st.body, orelse=st.orelse)] + rest, k, ctx)
         kk = build(rest, k, ctx)
         test = inline_exprs(copy.deepcopy(st.test), ctx)
         return Blk([], ("if", test, build(st.body, kk, ctx), build(st.orelse, kk, ctx)))
